@@ -5,6 +5,7 @@ World transforms of nodes are the path products of C09; here: what the scene com
 Over any linearly ordered field (bounds) / any field of characteristic zero (measures).
 -/
 import TrimeshVerif.Proofs.Scene
+import TrimeshVerif.Proofs.ScenePerAxis
 import TrimeshVerif.Proofs.GeomRat
 import TrimeshVerif.Proofs.SceneAppend
 namespace TV.C10
@@ -40,6 +41,17 @@ theorem C10_bounds_union (p : V3 K) (ps qs : List (V3 K)) :
 theorem C10_scaled_uniform (s : K) (i : Instance K) :
     placed (scaledUniform s i) = (placed i).map (smul s) := by
   exact placed_scaledUniform s i
+
+/-- **per-axis scaling, partial**: `Scene.scaled([sx, sy, sz])` re-scales every geometry in its node's own frame and
+    multiplies every edge translation by `S = diag(s)`.  Along any chain of edges whose linear parts all commute with
+    `S` (unrotated frames, rotations about an axis whose other two factors are equal, ...) every placed point moves to
+    `S · p`, as the property asks.  The full statement is false for the code (next theorem; recorded finding
+    `C10-scaled-per-axis-rotated`). -/
+theorem C10_scaled_per_axis_partial (S : M3 K) (es : List (M3 K × V3 K)) (hc : ∀ e ∈ es, S * e.1 = e.1 * S)
+    (p p' : V3 K) (hp : (chainWorld es).1.apply p' = S.apply ((chainWorld es).1.apply p)) :
+    transformPoint (chainWorld (es.map (scaleEdge S))).1 (chainWorld (es.map (scaleEdge S))).2 p'
+      = S.apply (transformPoint (chainWorld es).1 (chainWorld es).2 p) :=
+  perAxis_exact S es hc p p' hp
 
 /-- transforming the scene at the base frame moves every placed point through `M` -/
 theorem C10_apply_transform (M : M3 K) (m : V3 K) (i : Instance K) :
@@ -110,5 +122,18 @@ example : appendAll (fun k => 100 + k) [0] [] 0 [[0, 1, 1, 2], [0, 1, 1, 2], [0,
     [[0, 1, 1, 2], [0, 100, 100, 101], [0, 102, 102, 103]] := by decide
 
 end append
+
+/-- **witness that the commutation hypothesis is needed** (the behaviour of the code, reproduced on the
+    implementation): a node one unit along `x` below a frame turned by a quarter turn about `z`, scaled by
+    `diag(1, 2, 3)`: the origin of the node is placed at `(0, 1, 0)` before and after, not at `(0, 2, 0)` -/
+theorem C10_scaled_per_axis_witness :
+    let S : M3 Rat := ⟨1, 0, 0, 0, 2, 0, 0, 0, 3⟩
+    let es : List (M3 Rat × V3 Rat) := [(Rz 0 1, (0, 0, 0)), (1, (1, 0, 0))]
+    transformPoint (chainWorld (es.map (scaleEdge S))).1 (chainWorld (es.map (scaleEdge S))).2 (0, 0, 0) = (0, 1, 0) ∧
+    S.apply (transformPoint (chainWorld es).1 (chainWorld es).2 (0, 0, 0)) = (0, 2, 0) := by
+  have e : ∀ X Y : M3 Rat, X * Y = M3.mul X Y := fun _ _ => rfl
+  have o : (1 : M3 Rat) = M3.one := rfl
+  constructor <;>
+    simp [chainWorld, scaleEdge, transformPoint, M3.apply, add, Rz, e, o, M3.mul, M3.one]
 
 end TV.C10
